@@ -9,6 +9,8 @@ import Dcg.Proofs.TemplateCheckLex
 import Dcg.Proofs.TemplateCheckTable
 import Dcg.Proofs.TemplateSites
 import Dcg.Proofs.TemplateLexDoc
+import Dcg.Model.CodeSites
+import Dcg.Gen.CodeSites
 /-
 C10 — text taken from the input ends up as data, never as code.
 Only property theorems live here; helper lemmas are in Dcg/Proofs/Escape.lean.
@@ -271,5 +273,18 @@ example : lexHypB (.filter (.filter (.name "description") .escapeDocstring) (.in
 example : lexHypB (.attr (.name "field") "key") "a'b".toList = false := by decide +kernel
 
 end TemplateLex
+
+/-! ### Code-state sites written by Python code: class keywords (msgspec `tag_field=…, tag=…`) -/
+
+/-- **Class keyword values are generator-authored, repr-rendered, or a sanitised identifier between
+quotes.** Every `add_base_class_kwarg(name, value)` call of the generator (regenerated from the
+sources' AST on every run) passes a string constant, a `represented_default`, or an f-string that
+puts ONLY reviewed expressions (`field_name`: a sanitised identifier) between its hand-written
+quotes — the value class `reprValue` that `Model/Sites` assigns to the `{{ value }}` site of
+msgspec.jinja2 is thereby an obligation on the Python code, not an assumption.  Raw input (a wire
+name, an alias) between hand-written quotes breaks this theorem. -/
+theorem class_keyword_values_safe :
+    Dcg.Gen.CodeSites.kwargSites.all Dcg.Model.CodeSites.kwargSiteOK = true ∧
+    Dcg.Gen.CodeSites.kwargSites ≠ [] := by decide
 
 end Dcg.Props.C10
